@@ -31,7 +31,7 @@ class Stmts:
         """Returns all outcomes; exceptional ones included (collected from self.raised)."""
         frontier = [st]
         done: list[Out] = []
-        for s in stmts:
+        for s_index, s in enumerate(stmts):
             nxt: list[St] = []
             for cur in frontier:
                 mark = len(self.raised)
@@ -42,7 +42,9 @@ class Stmts:
                 done += new_raised
                 falls = [o.st for o in outs if o.kind == "fall"]
                 done += [o for o in outs if o.kind != "fall"]
-                if len(falls) > 1:
+                # join the branches only if more statements follow: what comes after the block (postconditions, loop
+                # invariants) is checked per branch, which keeps those obligations small
+                if len(falls) > 1 and s_index < len(stmts) - 1:
                     falls = [self.merge_states(falls)]
                 nxt += falls
             frontier = nxt
@@ -411,7 +413,9 @@ class Stmts:
                         for m in c.modifies:
                             if m == "alloc":
                                 continue
-                            if m.startswith("*"):
+                            if m.startswith("*") and m[1:] in ("llen", "lel", "dhas", "dval", "dsize"):
+                                keys.add(m[1:])
+                            elif m.startswith("*"):
                                 keys.add("f." + m[1:])
                             elif m.startswith("list("):
                                 keys |= {"llen", "lel"}
